@@ -14,9 +14,12 @@ import (
 	"net/http"
 	"net/url"
 	"strings"
+	"sync"
+	"sync/atomic"
 	"time"
 
 	"github.com/nais/wonderwall/pkg/cookie"
+	"github.com/nais/wonderwall/pkg/openid"
 )
 
 // Driver "c03": the provider mints ID tokens at every point of the fault lattice {signature} x {iss} x {aud} x {exp} x {iat} x {nbf} x
@@ -201,8 +204,83 @@ func runC03(c *ctx) {
 				"status", resp.Status, "created", created, "sesscookie", sess,
 				"cls", strings.Join([]string{p.sig, p.iss, p.aud, p.exp, p.iat, p.nbf, p.nonce, p.sub, p.sid, p.acr, fmtVal(ci)}, "/"))
 		}
+		c03Burst(c, s, rp, ci)
 		s.close()
 	}
+}
+
+// c03Burst: validation decisions must not depend on what OTHER callbacks are validating at the same moment. One really-signed token (nonce B, acr
+// substantial) is validated concurrently by workers whose login cookie carries nonce B (must accept) and by workers whose cookie carries nonce A, or
+// that asked for a higher level (must reject) - through the real IDToken.Validate with the configuration and key set of this replica.
+func c03Burst(c *ctx, s *sut, rp *replica, ci int) {
+	set, err := rp.jw.GetPublicJwkSet(ctxBg())
+	if err != nil {
+		panic(err)
+	}
+	now := time.Now().Unix()
+	raw := s.idp.mintJWS("good", map[string]any{"iss": s.idp.issuer, "aud": rp.oc.Client().ClientID(), "exp": now + 600, "iat": now, "nonce": "nonce-B", "sub": "subject",
+		"sid": "sid-burst", "acr": "idporten-loa-substantial", "jti": "burst"})
+	tok, err := openid.ParseIDToken(raw)
+	if err != nil {
+		panic(err)
+	}
+	dur := 250 * time.Millisecond
+	if c.thorough() {
+		dur = 3 * time.Second
+	}
+	type kind struct {
+		name   string
+		cookie openid.LoginCookie
+		accept bool
+	}
+	kinds := []kind{{"own", openid.LoginCookie{Nonce: "nonce-B"}, true}, {"othernonce", openid.LoginCookie{Nonce: "nonce-A"}, false},
+		{"higherlevel", openid.LoginCookie{Nonce: "nonce-B", Acr: "idporten-loa-high"}, len(rp.oc.Client().ACRValues()) == 0}}
+	// sequential reference first
+	for _, k := range kinds {
+		ck := k.cookie
+		if got := tok.Validate(rp.oc, &ck, set) == nil; got != k.accept {
+			c.emit("idtokburst", "cfg", ci, "kind", k.name, "phase", "sequential", "n", 1, "wrongaccept", b2i(got && !k.accept), "wrongreject", b2i(!got && k.accept))
+			return
+		}
+	}
+	var wg sync.WaitGroup
+	var stop atomic.Bool
+	n := make([]atomic.Int64, len(kinds))
+	wa := make([]atomic.Int64, len(kinds))
+	wr := make([]atomic.Int64, len(kinds))
+	for w := 0; w < 12; w++ {
+		ki := w % len(kinds)
+		wg.Add(1)
+		go func() {
+			defer wg.Done()
+			k := kinds[ki]
+			for !stop.Load() {
+				ck := k.cookie
+				got := tok.Validate(rp.oc, &ck, set) == nil
+				n[ki].Add(1)
+				if got && !k.accept {
+					wa[ki].Add(1)
+				}
+				if !got && k.accept {
+					wr[ki].Add(1)
+				}
+			}
+		}()
+	}
+	time.Sleep(dur)
+	stop.Store(true)
+	wg.Wait()
+	for i, k := range kinds {
+		c.count("burst:" + k.name)
+		c.emit("idtokburst", "cfg", ci, "kind", k.name, "phase", "concurrent", "n", n[i].Load(), "wrongaccept", wa[i].Load(), "wrongreject", wr[i].Load())
+	}
+}
+
+func b2i(b bool) int {
+	if b {
+		return 1
+	}
+	return 0
 }
 
 // mintJWS serialises claims as a compact JWS with the requested kind of signature.
